@@ -32,6 +32,9 @@ structure Cfg where
   raw : Bool
   k : Nat
   wbs : Nat
+  /-- the root's UnixFS data carries a mode or an mtime (constant over the life of the modifier: every operation
+  keeps them on the root; only a dag-pb root has them) -/
+  hasMeta : Bool := false
 
 /-! ### tree layer -/
 
@@ -101,13 +104,31 @@ def appendData (c : Cfg) (t : FNode) (chunks : List Chunk) : Option FNode :=
       -- an empty dag-pb file node: NewFSNFromDag gives an FSNodeOverDag without links
       (append c.w (.node 0 []) chunks).map (·.root)
 
+/-- does appendData execute `fsn.SetModTime(time.Now())` (trickle.Append's early return, taken when the new blocks
+all fit among the root's direct blocks)?  Only the flag; the tree is `appendData`'s. -/
+def appendTouches (c : Cfg) (t : FNode) (chunks : List Chunk) : Bool :=
+  let base : FNode := match t with
+    | .node _ _ => t
+    | .leaf d => if c.raw ∨ ¬ d.isEmpty then .node d.length [(.leaf d, d.length)] else .node 0 []
+  match append c.w base chunks with
+  | some o => o.mtimeTouched
+  | none => false
+
+/-- modifyDag / dagTruncate rewrite the UnixFS data of a dag-pb LEAF and refresh its mtime when it has one;
+for the root that is the case exactly when the file is a single dag-pb leaf -/
+def leafRootTouches (c : Cfg) (t : FNode) : Bool :=
+  match t with
+  | .leaf _ => !c.raw
+  | .node _ [] => true      -- a dag-pb file node without links (the empty trickle root) is treated as a leaf too
+  | .node _ _ => false
+
 /-- expandSparse(n): `n` zero bytes in blocks of 4096 -/
 def expandSparse (c : Cfg) (t : FNode) (n : Nat) : Option FNode :=
   appendData c t (chunksOf 4096 (List.replicate n 0))
 
-/-- maybeCollapseToRawLeaf (the files of the harness carry no mode / mtime) -/
+/-- maybeCollapseToRawLeaf; `Cfg.hasMeta` = the root carries a mode or an mtime (then it is kept as it is) -/
 def collapse (c : Cfg) (t : FNode) : FNode :=
-  if c.raw then
+  if c.raw && !c.hasMeta then
     match t with
     | .node _ [(.leaf d, _)] => .leaf d
     | _ => t
@@ -120,6 +141,9 @@ structure DM where
   writeStart : Nat := 0
   curWrOff : Nat := 0
   wrBuf : Option (List UInt8) := none
+  /-- ghost: `SetModTime(time.Now())` was executed on the root's UnixFS data since the modifier was created
+  (observable only if the root carries an mtime; tied by the correspondence, not used by the theorems) -/
+  touched : Bool := false
 
 /-- Size() -/
 def DM.size (s : DM) : Nat :=
@@ -141,7 +165,12 @@ def sync (c : Cfg) (s : DM) : Option DM :=
       let cur2 := if m.2.isEmpty then some m.1 else appendData c m.1 (chunksOf c.k m.2)
       match cur2 with
       | none => none
-      | some cur2 => some { s with cur := cur2, writeStart := s.writeStart + buf.length, wrBuf := none }
+      | some cur2 =>
+        let t := (FileTree.size s.cur < s.writeStart &&
+                    appendTouches c s.cur (chunksOf 4096 (List.replicate (s.writeStart - FileTree.size s.cur) 0))) ||
+                 leafRootTouches c cur1 || (!m.2.isEmpty && appendTouches c m.1 (chunksOf c.k m.2))
+        some { s with cur := cur2, writeStart := s.writeStart + buf.length, wrBuf := none,
+                      touched := (s.touched || t) }
 
 /-- Write(b): `(state, n, ok)` -/
 def write (c : Cfg) (s : DM) (b : List UInt8) : DM × Nat × Bool :=
@@ -171,7 +200,8 @@ where
       match cur1 with
       | none => (s, 0, false)
       | some cur1 =>
-        match sync c { s with cur := cur1 } with
+        let t := decide (off > sz) && appendTouches c s.cur (chunksOf 4096 (List.replicate (off - sz) 0))
+        match sync c { s with cur := cur1, touched := (s.touched || t) } with
         | none => ({ s with cur := cur1 }, 0, false)
         | some s2 => write c { s2 with writeStart := off, curWrOff := off } b
     else write c s b
@@ -195,7 +225,10 @@ def seek (c : Cfg) (s : DM) (off : Int) (whence : Nat) : DM × Int × Bool :=
         let cur1 := if t > fisize then expandSparse c s1.cur (t - fisize).toNat else some s1.cur
         match cur1 with
         | none => (s1, 0, false)
-        | some cur1 => ({ s1 with cur := cur1, curWrOff := t.toNat, writeStart := t.toNat }, t, true)
+        | some cur1 =>
+          let tt := decide (t > fisize) &&
+            appendTouches c s1.cur (chunksOf 4096 (List.replicate (t - fisize).toNat 0))
+          ({ s1 with cur := cur1, curWrOff := t.toNat, writeStart := t.toNat, touched := (s1.touched || tt) }, t, true)
 
 /-- Read(b) / CtxReadFull(ctx, b) with `len(b) = k`: `(state, bytes read, ok)` -/
 def read (c : Cfg) (s : DM) (k : Nat) : DM × List UInt8 × Bool :=
@@ -215,13 +248,24 @@ def truncate (c : Cfg) (s : DM) (sz : Nat) : DM × Bool :=
     else if sz > real then
       match expandSparse c s1.cur (sz - real) with
       | none => (s1, false)
-      | some t => ({ s1 with cur := t }, true)
+      | some t =>
+        let tt := appendTouches c s1.cur (chunksOf 4096 (List.replicate (sz - real) 0))
+        ({ s1 with cur := t, touched := (s1.touched || tt) }, true)
     else
       match dagTruncate s1.cur sz with
       | none => (s1, false)
       | some t =>
         -- `if dm.curWrOff > size { dm.curWrOff = max(dm.writeStart, size) }`: forget read progress beyond the new end
-        ({ s1 with cur := t, curWrOff := if s1.curWrOff > sz then max s1.writeStart sz else s1.curWrOff }, true)
+        ({ s1 with cur := t, curWrOff := if s1.curWrOff > sz then max s1.writeStart sz else s1.curWrOff,
+                   touched := (s1.touched || leafRootTouches c s1.cur) }, true)
+
+/-- WriteAt(b, offset) with a Go `int64` offset: `if offset < 0 { return 0, ErrNegativeOffset }` -/
+def writeAtI (c : Cfg) (s : DM) (b : List UInt8) (off : Int) : DM × Nat × Bool :=
+  if off < 0 then (s, 0, false) else writeAt c s b off.toNat
+
+/-- Truncate(size) with a Go `int64` size: `if size < 0 { return ErrNegativeOffset }` -/
+def truncateI (c : Cfg) (s : DM) (sz : Int) : DM × Bool :=
+  if sz < 0 then (s, false) else truncate c s sz.toNat
 
 /-- GetNode() -/
 def getNode (c : Cfg) (s : DM) : DM × Option FNode :=
